@@ -33,6 +33,10 @@ MatchNext(r) ==
                         /\ qorder'[eq'] = r.eqa
                         /\ r.eql = (\A j \in (eq'+1)..Len(qorder') : qorder'[j] # qorder'[eq']))
   /\ Len(qorder') = r.nq
+  /\ tp'.running = [a \in Apps |-> r.isrun[a]]
+  /\ Cardinality({a \in Apps : tp'.stage[a] = "sent"}) = r.gout
+  /\ {a \in Apps : tp'.stage[a] = "atgpu"} = {r.gat[i] : i \in 1..Len(r.gat)}
+  /\ Len(tp'.gpuIn) = r.gin
   /\ \A a \in Apps : Len(cmds'[a]) = r.len[a]
   /\ engineRunning' = r.run
   /\ tickScheduled' = (r.ev > 0)
@@ -43,6 +47,7 @@ MatchNow(r) ==
   /\ rpc = r.rpc /\ epc = EpcOf(r)
   /\ \A a \in Apps : Len(cmds[a]) = r.len[a]
   /\ Len(qorder) = r.nq
+  /\ tp.running = [a \in Apps |-> r.isrun[a]]
   /\ engineRunning = r.run /\ tickScheduled = (r.ev > 0)
 
 TStart == Is("Start") /\ MatchNow(Ev) /\ UNCHANGED vars
@@ -52,6 +57,8 @@ TStep ==
   /\ \/ Ev.t = "app" /\ Ev.a \in Apps /\ apc[Ev.a] = Ev.from /\ AppNext(Ev.a)
      \/ Ev.t = "ra" /\ rpc = Ev.from /\ RANext
      \/ Ev.t = "eng" /\ epc = Ev.from /\ ENext
+     \/ Ev.t = "gpu" /\ Ev.from = "take" /\ GPUTake /\ Head(tp.outq) = Ev.a
+     \/ Ev.t = "gpu" /\ Ev.from = "answer" /\ Ev.a \in Apps /\ GPUAnswer(Ev.a)
   /\ MatchNext(Ev)
 
 \* every application thread returned from its last DrainCommandQueue: all its commands completed, in order
@@ -60,12 +67,14 @@ TDone == Is("Done") /\ AllReturned /\ (\A a \in Apps : done[a] = issued[a]) /\ M
 TReset ==
   /\ Is("Reset") /\ Ev.na = NA /\ Ev.rounds = Rounds /\ Ev.per_round = PerRound
   /\ {Ev.temp[i] : i \in 1..Len(Ev.temp)} = TempApps
+  /\ {Ev.two[i] : i \in 1..Len(Ev.two)} = TwoPhaseApps
   /\ cmds' = [a \in Apps |-> <<>>] /\ issued' = [a \in Apps |-> <<>>] /\ done' = [a \in Apps |-> <<>>]
   /\ apc' = [a \in Apps |-> IF a \in TempApps THEN "create" ELSE "enq"] /\ round' = [a \in Apps |-> 1] /\ left' = [a \in Apps |-> PerRound]
   /\ sub' = [a \in Apps |-> FALSE] /\ token' = [a \in Apps |-> FALSE]
   /\ rpc' = "select" /\ engineRunning' = FALSE /\ rerun' = FALSE
   /\ epc' = "none" /\ eq' = 1 /\ eprog' = FALSE /\ pauseLock' = "free" /\ tickScheduled' = FALSE
   /\ qorder' = SetToSortedSeq(OwnApps)
+  /\ tp' = TPInit
 
 TNext == TStart \/ TStep \/ TDone \/ TReset
 TSpec == Init /\ l = 1 /\ [][TNext]_tvars
